@@ -192,7 +192,7 @@ structure DState where
 /-! ### the run-level terminal in lock-step (`S` lines: the stored runs of every row) -/
 
 def srowsOf (t : STerm) : Array String :=
-  ((t.main.lines ++ t.alt.lines).map fun l => toString l.width ++ ":" ++ spansStr l.spans).toArray
+  ((t.main.lines ++ t.alt.lines).map fun l => toString l.width ++ ":" ++ spansStr l.spans ++ " " ++ hexOrDash (lineANSI l)).toArray
 
 /-- the tokens of one parser step applied to the run-level terminal: a stretch of text is ONE run
     handed to `writeString` (as `ptyReadOne` does), every other token goes through `STerm.apply` -/
